@@ -70,6 +70,11 @@ def run(ctx):
     c03_.fresh_child_scopes(ctx, "C02.R5", core, cg,
                             doc="a do-block and a function body bind their names in a scope created for them (Environment::extend / extend_with in the same arm), never in the enclosing one: evaluating the same expression twice, or once under a new name, sees the same bindings")
 
+    # ---------------- R9 an operand is evaluated whether or not its value ends up being needed
+    ctx.rule("C02.R9", "binding a sub-expression to a name and using the name gives the same result: both operands of a binary operator are evaluated before anything is answered (a right operand skipped when the left one decides `&&` / `||` fails - or prints - only in the let-abstracted program)", floor=1)
+    from rules import c11 as c11_
+    c11_.both_operands_first(ctx, "C02.R9", core)
+
     # ---------------- R8 the same piped bytes are the same inputs
     from rules import c06 as c06_
     ctx.rule("C02.R8", "the inputs a run sees are a function of the bytes piped to it, not of how the producer wrote them: every non-interactive read of stdin is read_to_string / read_to_end on stdin itself (a single Read::read returns whatever the first pipe write delivered)", floor=1)
